@@ -227,6 +227,15 @@ def encode_call(q, name, args, kw):
         if not isinstance(f, (str, T.Node)):
             raise Unsupported("do_update field %r" % type(f))
         return {"m": "do_update", "field": d_arg(f), "value": None if v is None else d_arg(v)}
+    if name == "returning":
+        if kw:
+            raise Unsupported("returning kwargs")
+        _identity_guard(q, a, extra=[q._insert_table])
+        out = []
+        for x in a:
+            agg = bool(x.is_aggregate) if isinstance(x, (T.Function, T.ArithmeticExpression)) else False
+            out.append({"a": d_arg(x), "agg": agg})
+        return {"m": "returning", "args": out}
     if name == "modifier":
         return {"m": "modifier", "value": describe._optstr(a[0])}
     if name == "using":
@@ -267,11 +276,11 @@ BUILDER_METHODS = [
     "force_index", "use_index", "distinct", "for_update", "ignore", "with_totals", "prewhere", "where", "having",
     "groupby", "rollup", "orderby", "limit", "offset", "slice", "set", "on_duplicate_key_update",
     "on_duplicate_key_ignore", "modifier", "distinct_on", "on_conflict", "do_nothing", "do_update", "using", "top",
-    "final", "sample", "limit_by", "limit_offset_by", "hint",
+    "final", "sample", "limit_by", "limit_offset_by", "hint", "returning",
 ]
 JOINER_METHODS = ["on", "on_field", "using", "cross"]
 # other @builder methods: calls made from inside them must not be recorded as calls of the check
-OPAQUE_METHODS = ["join", "replace_table", "returning", "fetch_next"]
+OPAQUE_METHODS = ["join", "replace_table", "fetch_next"]
 SETOP_CTORS = ["union", "union_all", "intersect", "except_of", "minus"]
 SETOP_METHODS = ["orderby", "limit", "offset", "union", "union_all", "intersect", "except_of", "minus"]
 
@@ -815,7 +824,7 @@ class Recording:
                     post = d_state(rec.result)
                     req["post"] = post["q"]
                     exp = {"agree": True, "select_star": post["select_star"], "star_tables": post["star_tables"],
-                           "sub_count": post["sub_count"]}
+                           "sub_count": post["sub_count"], "return_star": post["return_star"]}
                 else:
                     continue
             except Unsupported as e:
